@@ -1457,7 +1457,7 @@ def c16_phases(ctx):
         if not quick:
             groups.append(lifetime_walk("c16/%s/exhaust2" % alg, alg, [(4, 2), ([1, 2, 4, 8][(ai + 1) % 4], 2)], cyc[(ai + 1) % 3]))
     # the wipe decision at the LAST leaf for shapes no walk can exhaust (total heights up to 200): arithmetic accessor
-    groups += arith_groups(ctx, True)[:(10 if quick else None)]
+    groups += arith_groups(ctx, True)[:(4 if quick else 40)]
     return [{"tag": "c16", "groups": groups, "trace_module": "TraceApi", "trace_cfg": "TraceApi.cfg",
              "space": "5 secret-bearing types x {zeroize, drop in place} x sentinel bytes x 6 hashes; exhaustion histories (wiped key bytes)"}]
 
@@ -1591,7 +1591,7 @@ REGISTRY["C05"]["design"] = c05_design
 
 def c03_phases(ctx):
     ph = api_phases(ctx, "c03")
-    ph[0]["groups"] += arith_groups(ctx, True)[:(12 if ctx["tier"] == "quick" else None)]
+    ph[0]["groups"] += arith_groups(ctx, True)[:(6 if ctx["tier"] == "quick" else 60)]
     ph[0]["space"] += "; counter successor / last-leaf arithmetic for tall shapes through the accessor"
     return ph
 
